@@ -345,3 +345,8 @@ func StClosePrefix(ctx context.Context, store string, prefix []byte) {}
 // LightDecimals(true): decimal formatting of integers is characterised by its inverse and by "1..20 digits" only (the
 // no-leading-zeros fact is dropped): enough for keys that embed decimal heights, much cheaper for the string solvers.
 func LightDecimals(on bool) {}
+
+// AbstractHopSyntax(true): channeltypes.IsValidChannelID and clienttypes.IsValidClientID on symbolic strings are
+// uninterpreted predicates implying their format regular expressions; counterexamples are concretised against the
+// real functions. Sound for properties that hold whatever identifiers look like hops.
+func AbstractHopSyntax(on bool) {}
